@@ -47,7 +47,7 @@ pub fn exec_other(env: &mut Env, op: &Op, ctx: &str) {
 /// lengths, row view and column view describe the same cells, no more rows than LIMIT.
 pub fn check_wellformed(env: &mut Env, sql: &str, r: &Result<QOut, QErr>, ctx: &str) {
     match r {
-        Err(QErr::Panic(m)) => env.violate(&format!("query_panicked_in_caller:{}", stem(m)), format!("[{ctx}] run_query({sql:?}) panicked in the calling thread: {m}")),
+        Err(QErr::Panic(m)) => env.violate(&caller_panic_class("query_panicked_in_caller", m), format!("[{ctx}] run_query({sql:?}) panicked in the calling thread: {m}")),
         Err(QErr::Err(kind, msg)) => {
             env.count(&format!("query_err:{kind}"));
             if kind == "FatalError" {
@@ -312,7 +312,7 @@ pub fn exec_concurrent(env: &mut Env, clients: &[ClientPlan], ctx: &str) {
             }
         }
         if let OpResult::CallerPanicked(m) = &r.result {
-            env.violate(&format!("call_panicked_in_caller:{}", stem(m)), format!("[{ctx}] client {} op {} panicked in the calling thread: {m}", r.client, crate::exec::op_name(&r.op)));
+            env.violate(&caller_panic_class("call_panicked_in_caller", m), format!("[{ctx}] client {} op {} panicked in the calling thread: {m}", r.client, crate::exec::op_name(&r.op)));
         }
     }
     env.collect_panics(ctx);
